@@ -119,15 +119,18 @@ class EndpointsEmitter:
         Args:
             operations: List of all operations across all tags.
         """
-        seen_methods: dict[str, int] = {}
+        seen_methods: set[str] = set()
         for op in operations:
             method_name = NameSanitizer.sanitize_method_name(op.operation_id)
             if method_name in seen_methods:
-                seen_methods[method_name] += 1
-                new_op_id = f"{op.operation_id}_{seen_methods[method_name]}"
-                op.operation_id = new_op_id
-            else:
-                seen_methods[method_name] = 1
+                # Pick the first numeric suffix whose method name is really unused: a bare counter can
+                # re-create a name another operation already owns (ids "a_2", "a", "a").
+                suffix = 2
+                while NameSanitizer.sanitize_method_name(f"{op.operation_id}_{suffix}") in seen_methods:
+                    suffix += 1
+                op.operation_id = f"{op.operation_id}_{suffix}"
+                method_name = NameSanitizer.sanitize_method_name(op.operation_id)
+            seen_methods.add(method_name)
 
     def emit(self, operations: List[IROperation], output_dir_str: str) -> List[str]:
         """Render endpoint client files per tag under <output_dir>/endpoints.
